@@ -18,9 +18,14 @@ impl<'a> TlvSetBuilder<'a> {
     /// Add a TLV to the builder.
     ///
     /// # Errors
-    /// Fails when the remaining buffer is too small for the TLV, or
-    /// when the TLV itself is larger than 2^16 bytes.
+    /// Fails when the remaining buffer is too small for the TLV, when
+    /// the TLV itself is larger than 2^16 bytes, or when the length of
+    /// its value is odd (which [`Message::deserialize`](crate::Message::deserialize)
+    /// would reject).
     pub fn add(&mut self, tlv: &Tlv<'_>) -> Result<(), Error> {
+        if !tlv.value.len().is_multiple_of(2) {
+            return Err(Error::Invalid);
+        }
         tlv.serialize(&mut self.buffer[self.used..])?;
         self.used += tlv.wire_size();
         Ok(())
